@@ -2,6 +2,8 @@
 //! Every sub-command reads NDJSON records on stdin (produced from TLC output by py/verif) and
 //! writes NDJSON results on stdout.  Panics of the code under test are data, not tool errors.
 mod graph;
+mod pathnorm;
+mod pred;
 mod util;
 
 fn main() {
@@ -13,6 +15,8 @@ fn main() {
     let code = match sub {
         "graph" => graph::run(&rest),
         "tsort" => graph::run_tsort(&rest),
+        "pathnorm" => pathnorm::run(&rest),
+        "pred" => pred::run(&rest),
         _ => {
             eprintln!("unknown sub-command {sub:?}");
             2
